@@ -1334,6 +1334,17 @@ class Engine:
         if kind == 'lib':
             self.libuse.add(d[1])
             yield from d[2](self, st, args, kwargs, line)
+        elif kind == 'libm' and len(d) == 3:
+            # spec mode, method of a dynamically typed value: defined when it is a str
+            o, attr = d[2], d[1][4:]
+            for s2, isstr in self.fork(st, PV.is_ps(o.t)):
+                if isstr:
+                    m = self.lib.method(self, unbox(o.t, STR), attr)
+                    if m is None:
+                        raise EngineError('no str method %s (line %d)' % (attr, line))
+                    yield from self.call(s2, m, args, kwargs, line)
+                else:
+                    yield s2, Raise('AttributeError', (), line)
         elif kind == 'libm':
             self.libuse.add(d[1])
             yield from d[3](self, st, d[2], args, kwargs, line)
